@@ -29,6 +29,7 @@ RULE = ("lock-step differential: every operation of a history (awaited call, fai
         "history with at least one hit and (one eviction or one discard or one clear or a failing call); "
         "distinct = (configuration, history)")
 RULE += (" Also: results None/0/False/''/() ; keyword names self/key/args/typed; failing calls raising every standard exception type (incl. falsy exception instances); bound/unbound access sharing one store.")
+RULE += (' Also: lru_cache(maxsize=<anything>) construction against functools; opaque results.')
 ASSUMPTIONS = ["functools.lru_cache (C implementation of the running 3.12 interpreter) is the reference",
                "cache_discard has no stdlib twin: reference is the cross-validated model"]
 EXHAUSTIVE_SUBSPACES = 'all histories of length <= 4 (thorough: 5) over 7 operations for maxsize 1 and 2'
@@ -176,7 +177,13 @@ class Backend:
         # what the function returns varies: ``None`` and other falsy values are results like any other and must be
         # cached, counted and served exactly like the rest
         n = len(self.log)
-        return (("r", n), None, 0, ("r", n), False, "", ())[n % 7]
+        # ... and so is an object that refuses to be inspected (no truth value, no equality, no hash)
+        return (("r", n), None, 0, ("r", n), False, "", (), OPAQUE)[n % 8]
+
+
+from ..tools import Opaque  # noqa: E402
+
+OPAQUE = Opaque("result")
 
 
 def build(case):
